@@ -10,6 +10,7 @@ encoding is the lex monomial order x0 > x1 > ... .
 """
 from fractions import Fraction
 import itertools
+import math
 
 _VARS = []          # index -> name
 _VAR_INDEX = {}     # name -> index
@@ -71,12 +72,12 @@ def new_var(name, **meta):
     _VAR_INDEX[name] = len(_VARS)
     _VARS.append(name)
     _VAR_META[name] = meta
-    return Poly({((-_VAR_INDEX[name], 1),): Fraction(1)})
+    return Poly({((-_VAR_INDEX[name], 1),): 1})
 
 
 def get_var(name):
     i = _VAR_INDEX[name]
-    return Poly({((-i, 1),): Fraction(1)})
+    return Poly({((-i, 1),): 1})
 
 
 def _mono_mul(a, b):
@@ -141,7 +142,7 @@ class Poly(object):
     # -- construction
     @staticmethod
     def const(c):
-        c = Fraction(c)
+        c = _norm(Fraction(c))
         return Poly({(): c}) if c != 0 else Poly({})
 
     def is_zero(self):
@@ -275,37 +276,45 @@ class Poly(object):
         m, c = self.lead()
         if c == 1:
             return self, c
-        return self.scale(1 / c), c
+        return self.scale(_div(1, c)), c
 
     def divexact(self, d):
-        """self / d if d divides self exactly, else None."""
+        """self / d if d divides self exactly, else None.  When both have integer coefficients and d is primitive
+        the quotient has integer coefficients (Gauss), which is used to fail fast."""
         if d.is_const():
-            return self.scale(1 / d.const_value())
+            return self.scale(_div(1, d.const_value()))
         if not self.t:
             return self
         dm, dc = d.lead()
+        ints = type(dc) is int
         if len(d.t) == 1:
             t = {}
             for m, c in self.t.items():
                 q = _mono_div(m, dm)
                 if q is None:
                     return None
-                t[q] = c / dc
+                t[q] = _div(c, dc)
             return Poly(t)
-        # cheap necessary conditions
         if len(self.t) < 2:
             return None
         rem = dict(self.t)
         q = {}
         dt = [(m, c) for m, c in d.t.items() if m != dm]
-        # bound on steps to avoid pathological cost
         while rem:
             m = max(rem)
             c = rem[m]
             qm = _mono_div(m, dm)
             if qm is None:
                 return None
-            qc = c / dc
+            if ints and type(c) is int:
+                if c % dc:
+                    if d_is_primitive_int(d) and all(type(v) is int for v in self.t.values()):
+                        return None
+                    qc = Fraction(c, dc)
+                else:
+                    qc = c // dc
+            else:
+                qc = _div(c, dc)
             q[qm] = qc
             del rem[m]
             for m2, c2 in dt:
@@ -356,6 +365,72 @@ class Poly(object):
         return " + ".join(out)
 
 
+def _norm(c):
+    """Fraction with denominator 1 -> int"""
+    if type(c) is Fraction and c.denominator == 1:
+        return c.numerator
+    return c
+
+
+def _div(a, b):
+    return _norm(Fraction(a) / Fraction(b))
+
+
+_PRIM = {}
+
+
+def d_is_primitive_int(d):
+    k = id(d)
+    v = _PRIM.get(k)
+    if v is None or v[0] is not d:
+        ok = all(type(c) is int for c in d.t.values())
+        if ok:
+            g = 0
+            for c in d.t.values():
+                g = math.gcd(g, c)
+                if g == 1:
+                    break
+            ok = (g == 1)
+        _PRIM[k] = (d, ok)
+        return ok
+    return v[1]
+
+
+def content_split(p):
+    """p = c * q with q integer-coefficient, primitive, positive leading coefficient; returns (q, c)"""
+    if not p.t:
+        return p, Fraction(0)
+    L = 1
+    allint = True
+    for c in p.t.values():
+        if type(c) is not int:
+            allint = False
+            d = c.denominator
+            if d != 1:
+                L = L * d // math.gcd(L, d)
+    G = 0
+    if allint:
+        for c in p.t.values():
+            G = math.gcd(G, c)
+            if G == 1:
+                break
+        lead = p.lead()[1]
+        if G == 1 and lead > 0:
+            return p, 1
+        sgn = -1 if lead < 0 else 1
+        return Poly({m: (c // G) * sgn for m, c in p.t.items()}), G * sgn
+    ints = {m: int(c * L) for m, c in p.t.items()}
+    for c in ints.values():
+        G = math.gcd(G, c)
+        if G == 1:
+            break
+    q = Poly(ints)
+    lead = q.lead()[1]
+    sgn = -1 if lead < 0 else 1
+    q = Poly({m: (c // G) * sgn for m, c in ints.items()})
+    return q, _norm(Fraction(G * sgn, L))
+
+
 def _smt_q(c):
     c = Fraction(c)
     n, d = c.numerator, c.denominator
@@ -364,20 +439,21 @@ def _smt_q(c):
 
 
 ZERO = Poly({})
-ONE = Poly({(): Fraction(1)})
+ONE = Poly({(): 1})
 
 # ---------------------------------------------------------------------------
-# rational functions with factored denominators
-_ATOMS = {}   # monic Poly -> itself (interning)
+# rational functions with factored denominators:  value = s * n / prod(atom^exp)
+#   s     rational scalar
+#   n     integer-coefficient primitive polynomial with positive leading coefficient (or ZERO)
+#   atoms integer-coefficient primitive polynomials with positive leading coefficient
+_ATOMS = {}   # atom Poly -> itself (interning)
 
 
 def _split_atoms(p):
-    """Factor poly p (non-constant) over the known atoms: returns (scalar, {atom: exp}).
-    The cofactor left after trial division becomes a new (monic) atom."""
-    assert not p.is_zero()
+    """Factor the (non-zero) poly p over the known atoms: returns (scalar, {atom: exp}).
+    The cofactor left after trial division becomes a new atom."""
+    cur, scal = content_split(p)
     fac = {}
-    scal = Fraction(1)
-    cur = p
     if not cur.is_const():
         for a in list(_ATOMS):
             if cur.is_const():
@@ -393,12 +469,12 @@ def _split_atoms(p):
                 if cur.is_const():
                     break
     if cur.is_const():
-        scal = cur.const_value()
+        scal = scal * cur.const_value()
     else:
-        mon, lc = cur.monic()
-        scal = lc
-        mon = _ATOMS.setdefault(mon, mon)
-        fac[mon] = fac.get(mon, 0) + 1
+        cur, c2 = content_split(cur)
+        scal = scal * c2
+        cur = _ATOMS.setdefault(cur, cur)
+        fac[cur] = fac.get(cur, 0) + 1
     return scal, fac
 
 
@@ -436,47 +512,82 @@ def _den_poly(den):
     return p
 
 
-class Q(object):
-    """num / prod(atom^exp); value-preserving normalisation only."""
-    __slots__ = ('n', 'd')
+def _frac(s):
+    if type(s) is int:
+        return s, 1
+    return s.numerator, s.denominator
 
-    def __init__(self, n, d=None):
+
+class Q(object):
+    """s * n / prod(atom^exp); value-preserving normalisation only."""
+    __slots__ = ('n', 'd', 's')
+
+    def __init__(self, n, d=None, s=1):
+        """n must already be normalised (use Q.make otherwise)"""
         self.n = n
         self.d = d if d else {}
+        self.s = s
+
+    @staticmethod
+    def make(n, d=None, s=1):
+        if n.is_zero():
+            return Q(ZERO, None, 0)
+        q, c = content_split(n)
+        return Q(q, d, _norm(s * c))
 
     @staticmethod
     def const(c):
-        return Q(Poly.const(c))
+        c = _norm(Fraction(c))
+        if c == 0:
+            return Q(ZERO, None, 0)
+        return Q(ONE, None, c)
 
     @staticmethod
     def var(name, **meta):
-        return Q(new_var(name, **meta))
+        return Q(new_var(name, **meta), None, 1)
+
+    @staticmethod
+    def of_poly(p):
+        return Q.make(p)
 
     def is_const(self):
         return not self.d and self.n.is_const()
 
     def const_value(self):
-        return self.n.const_value()
+        if self.n.is_zero():
+            return Fraction(0)
+        return Fraction(self.s * self.n.const_value())
 
     def is_zero(self):
         return self.n.is_zero()
 
+    def num_poly(self):
+        """numerator including the scalar's numerator sign/magnitude (for display / equality with zero use .n)"""
+        return self.n.scale(self.s)
+
     def __neg__(self):
-        return Q(-self.n, self.d)
+        if self.n.is_zero():
+            return self
+        return Q(self.n, self.d, -self.s)
 
     def __add__(self, o):
         if o.n.is_zero():
             return self
         if self.n.is_zero():
             return o
+        a1, b1 = _frac(self.s)
+        a2, b2 = _frac(o.s)
+        g = math.gcd(b1, b2)
+        k1 = a1 * (b2 // g)
+        k2 = a2 * (b1 // g)
+        sc = Fraction(1, b1 // g * b2)
         if not self.d and not o.d:
-            return Q(self.n + o.n)
+            return Q.make(self.n.scale(k1) + o.n.scale(k2), None, sc)
         if self.d == o.d:
-            n, d = _cancel(self.n + o.n, self.d)
-            return Q(n, d)
-        # lcm of factored denominators
+            n, d = _cancel(self.n.scale(k1) + o.n.scale(k2), self.d)
+            return Q.make(n, d, sc)
         l = dict(self.d)
-        m1 = ONE   # multiplier for self.n  = l / self.d
+        m1 = ONE
         m2 = ONE
         for a, e in o.d.items():
             e1 = l.get(a, 0)
@@ -487,32 +598,37 @@ class Q(object):
             e2 = o.d.get(a, 0)
             if e > e2:
                 m2 = m2 * (a ** (e - e2))
-        n = self.n * m1 + o.n * m2
+        n = (self.n * m1).scale(k1) + (o.n * m2).scale(k2)
         n, d = _cancel(n, l)
-        return Q(n, d)
+        return Q.make(n, d, sc)
 
     def __sub__(self, o):
         return self + (-o)
 
     def __mul__(self, o):
         if self.n.is_zero() or o.n.is_zero():
-            return Q(ZERO)
+            return Q(ZERO, None, 0)
+        s = _norm(self.s * o.s)
         if not self.d and not o.d:
-            return Q(self.n * o.n)
+            if _QUAD:
+                return Q.make(self.n * o.n, None, s)
+            return Q(self.n * o.n, None, s)
         n1, d2 = _cancel(self.n, o.d)
         n2, d1 = _cancel(o.n, self.d)
         d = dict(d1)
         for a, e in d2.items():
             d[a] = d.get(a, 0) + e
-        return Q(n1 * n2, d)
+        if _QUAD:
+            return Q.make(n1 * n2, d, s)
+        return Q(n1 * n2, d, s)
 
     def inv(self):
         if self.n.is_zero():
             raise ZeroDivisionError("symbolic division by the zero polynomial")
         if self.n.is_const():
-            return Q(_den_poly(self.d).scale(1 / self.n.const_value()))
+            return Q.make(_den_poly(self.d), None, _div(1, self.s * self.n.const_value()))
         scal, fac = _split_atoms(self.n)
-        return Q(_den_poly(self.d).scale(1 / scal), fac)
+        return Q.make(_den_poly(self.d), fac, _div(1, self.s * scal))
 
     def __truediv__(self, o):
         return self * o.inv()
@@ -521,34 +637,43 @@ class Q(object):
         assert isinstance(k, int)
         if k < 0:
             return self.inv() ** (-k)
-        return Q(self.n ** k, {a: e * k for a, e in self.d.items()})
+        if self.n.is_zero():
+            return self if k else Q.const(1)
+        return Q.make(self.n ** k, {a: e * k for a, e in self.d.items()}, _norm(Fraction(self.s) ** k))
 
     def den_poly(self):
         return _den_poly(self.d)
 
     def sign_poly(self):
         """polynomial with the same sign as self wherever all atoms are non-zero."""
-        p = self.n
+        p = self.n if self.s > 0 else -self.n
         for a, e in self.d.items():
             if e % 2:
                 p = p * a
         return p
 
     def eval(self, env):
-        v = self.n.eval(env)
+        v = self.n.eval(env) * self.s
         for a, e in self.d.items():
             v = v / a.eval(env) ** e
         return v
 
+    def key(self):
+        return (self.s, frozenset(self.n.t.items()), frozenset((hash(a), e) for a, e in self.d.items()))
+
+    def same(self, o):
+        return self.s == o.s and self.n == o.n and self.d == o.d
+
     def __repr__(self):
+        num = self.n.scale(self.s) if self.n.t else self.n
         if not self.d:
-            return "Q(%r)" % (self.n,)
-        return "Q(%r / %s)" % (self.n, " * ".join("(%r)^%d" % (a, e) for a, e in self.d.items()))
+            return "Q(%r)" % (num,)
+        return "Q(%r / %s)" % (num, " * ".join("(%r)^%d" % (a, e) for a, e in self.d.items()))
 
 
 def q_eq_parts(x, y):
-    """fraction-free equality x == y: returns (lhs Poly, rhs Poly) with lhs==rhs <=> x==y
-    (given all atoms non-zero)."""
+    """fraction-free equality x == y: returns (n1, m1, n2, m2) with n1*m1 == n2*m2 <=> x == y
+    (given all atoms non-zero); the rational scalars are folded into n1, n2 as integers."""
     l = dict(x.d)
     m1 = ONE
     m2 = ONE
@@ -561,4 +686,6 @@ def q_eq_parts(x, y):
         e2 = y.d.get(a, 0)
         if e > e2:
             m2 = m2 * (a ** (e - e2))
-    return x.n, m1, y.n, m2
+    a1, b1 = _frac(x.s)
+    a2, b2 = _frac(y.s)
+    return x.n.scale(a1 * b2), m1, y.n.scale(a2 * b1), m2, b1 * b2
